@@ -1,5 +1,6 @@
 import HcipyVerif.Model.Proto
 import HcipyVerif.Model.Scheduler
+import HcipyVerif.Model.SchedulerRef
 
 /-! Line-protocol front end of the C20 model. -/
 namespace HcipyVerif.Driver.C20
@@ -19,6 +20,11 @@ structure St where
   ops : List Op := []
   fuel : Option Nat := none
   fuelSame : Bool := true
+  /-- round 5: the caller's mutable cells (`cell k x` writes), the caller program so far, and the
+  same program run by the by-reference scheduler `Bad.byReference` (policy `alias`) -/
+  cells : Nat → Rat := fun _ => 0
+  rops : List ROp := []
+  bad : World := winit
 
 /-- the callbacks as the real ones are: they see the clock -/
 def kidsOfC (tbl : List (Nat × List (Rat × Nat × Bool))) (clk : Rat) (e : Entry) : List (Rat × Nat) :=
@@ -55,25 +61,10 @@ def parsePairs? (s : String) : Option (List (Rat × Nat × Bool)) :=
     | [d, c, "c"] => do let d ← parseRat? d; let c ← parseNat? c; pure (d, c, true)
     | _ => none
 
-def step (st : St) : List String → St × String
-  | ["reset"] => ({}, "ok")
-  | ["add", t, id] =>
-    match parseRat? t, parseNat? id with
-    | some t, some id =>
-      ({ st with h := stepOp (kidsOf st.tbl) 0 st.h (.add t id), ops := st.ops ++ [.add t id] }, "ok")
-    | _, _ => (st, "bad-op")
-  | ["kids", id, pairs] =>
-    match parseNat? id, parsePairs? pairs with
-    | some id, some l => ({ st with tbl := (id, l) :: st.tbl.filter (·.1 ≠ id) }, "ok")
-    | _, _ => (st, "bad-op")
-  | ["eps", x] =>
-    -- the threshold constant read out of the running code, compared with the model's `eps`
-    match parseRat? x with
-    | some x => (st, if x = eps then "ok" else s!"differs:{showRat eps}")
-    | none => (st, "bad-op")
-  | ["evolve", T, fuel, "new"] =>
-    match parseRat? T, parseNat? fuel with
-    | some T, some fuel =>
+/-- `evolve_until(T)`; `via = some k`: the target was handed over as a reference to the caller's cell
+`k` (then `T = st.cells k`), and the call is made a second time through the reference machine
+`stepG .copy` — the object of `stored_by_value` — whose history must be the same (`same=`). -/
+def doEvolve (st : St) (T : Rat) (fuel : Nat) (via : Option Nat) : St × String :=
       -- the run with callbacks that see the clock, as the real ones do
       let runC := evolveUntilC (kidsOfC st.tbl) fuel st.h.s T
       -- ... read as entry-only callbacks (what each executed callback scheduled, over the history):
@@ -88,16 +79,92 @@ def step (st : St) : List String → St × String
       let run := evolveUntil kids fuel st.h.s T
       let h' := if rel then hcC.h else stepOp kids fuel st.h (.evolve T)
       let t0 := st.h.s.t
+      let arg : TimeArg := match via with | some k => .ref k | none => .val T
+      let viaG := decide ((stepG .copy kids fuel ⟨st.h, [], st.cells⟩ (.evolve arg)).h = h')
       -- clock, counter and queue are printed from the history state the theorems are about
       let out := s!"{showStatus run.status} t={showRat h'.s.t} ctr={h'.s.ctr} trace=" ++
         ";".intercalate (run.trace.map showEvent) ++ " queue=" ++
         ";".intercalate (h'.s.queue.map showEntry) ++ " iv=" ++
         ";".intercalate ((intervals t0 run.trace).map showIv) ++
         s!" sum={showRat (sumDt run.trace)} lfc={showRat (lastFireClock t0 run.trace)}" ++
-        s!" same={decide (run = runC)}"
+        s!" same={decide (run = runC) && viaG}"
       ({ st with h := h', ftbl := ftbl, ops := st.ops ++ [.evolve T],
-                 fuel := some fuel, fuelSame := st.fuelSame && (st.fuel.isNone || st.fuel == some fuel) }, out)
+                 fuel := some fuel, fuelSame := st.fuelSame && (st.fuel.isNone || st.fuel == some fuel),
+                 rops := st.rops ++ [.evolve arg],
+                 bad := stepG .alias (kidsOf st.tbl) fuel { st.bad with cells := st.cells } (.evolve arg) }, out)
+
+def step (st : St) : List String → St × String
+  | ["reset"] => ({}, "ok")
+  | ["add", t, id] =>
+    match parseRat? t, parseNat? id with
+    | some t, some id =>
+      ({ st with h := stepOp (kidsOf st.tbl) 0 st.h (.add t id), ops := st.ops ++ [.add t id],
+                 rops := st.rops ++ [.add (.val t) id],
+                 bad := stepG .alias (kidsOf st.tbl) 0 { st.bad with cells := st.cells } (.add (.val t) id) }, "ok")
     | _, _ => (st, "bad-op")
+  | ["kids", id, pairs] =>
+    match parseNat? id, parsePairs? pairs with
+    | some id, some l => ({ st with tbl := (id, l) :: st.tbl.filter (·.1 ≠ id) }, "ok")
+    | _, _ => (st, "bad-op")
+  | ["eps", x] =>
+    -- the threshold constant read out of the running code, compared with the model's `eps`
+    match parseRat? x with
+    | some x => (st, if x = eps then "ok" else s!"differs:{showRat eps}")
+    | none => (st, "bad-op")
+  | ["evolve", T, fuel, "new"] =>
+    match parseRat? T, parseNat? fuel with
+    | some T, some fuel => doEvolve st T fuel none
+    | _, _ => (st, "bad-op")
+  -- round 5: the caller's cells and calls that hand over a reference to a cell
+  | ["cell", k, x] =>
+    match parseNat? k, parseRat? x with
+    | some k, some x =>
+      ({ st with cells := setCell st.cells k x, rops := st.rops ++ [.mutate k x] }, "ok")
+    | _, _ => (st, "bad-op")
+  | ["addref", k, id] =>
+    match parseNat? k, parseNat? id with
+    | some k, some id =>
+      ({ st with h := (stepG .copy (kidsOf st.tbl) 0 ⟨st.h, [], st.cells⟩ (.add (.ref k) id)).h,
+                 ops := st.ops ++ [.add (st.cells k) id], rops := st.rops ++ [.add (.ref k) id],
+                 bad := stepG .alias (kidsOf st.tbl) 0 { st.bad with cells := st.cells } (.add (.ref k) id) }, "ok")
+    | _, _ => (st, "bad-op")
+  | ["evolveref", k, fuel, "new"] =>
+    match parseNat? k, parseNat? fuel with
+    | some k, some fuel => doEvolve st (st.cells k) fuel (some k)
+    | _, _ => (st, "bad-op")
+  | ["evolvex", T, fuel, c, "new"] =>
+    -- round 5: the callback of the entry with counter `c` raises as soon as it is called (`loopX`); the history
+    -- advances by `stepOp` — the object of the theorems — on the fuel and callbacks of `raise_eq_fuel_out`,
+    -- whose run must be the `loopX` run (`same=`)
+    match parseRat? T, parseNat? fuel, parseNat? c with
+    | some T, some fuel, some c =>
+      if clockRel st.tbl then (st, "bad-op") else
+      let kids := kidsOf st.tbl
+      let rx := evolveUntilX kids (fun e => e.ctr == c) fuel st.h.s T
+      match rx.raisedAt with
+      | none => doEvolve st T fuel none
+      | some e =>
+        let k' := kidsExcept kids e
+        let j := (fired rx.run.trace).length
+        let run := evolveUntil k' j st.h.s T
+        let h' := stepOp k' j st.h (.evolve T)
+        let t0 := st.h.s.t
+        let out := s!"raised t={showRat h'.s.t} ctr={h'.s.ctr} trace=" ++
+          ";".intercalate (run.trace.map showEvent) ++ " queue=" ++
+          ";".intercalate (h'.s.queue.map showEntry) ++ " iv=" ++
+          ";".intercalate ((intervals t0 run.trace).map showIv) ++
+          s!" sum={showRat (sumDt run.trace)} lfc={showRat (lastFireClock t0 run.trace)}" ++
+          s!" same={decide (run = rx.run)}"
+        ({ st with h := h', ops := st.ops ++ [.evolve T], fuel := some j, fuelSame := false,
+                   rops := st.rops ++ [.evolve (.val T)] }, out)
+    | _, _, _ => (st, "bad-op")
+  | ["byref"] =>
+    -- the caller program once more through `runG .copy` (stored_by_value: = the history), and whether the
+    -- by-reference scheduler `Bad.byReference` would have run a different history on it
+    if clockRel st.tbl || !st.fuelSame then (st, "replayG=na differs=na") else
+    let f := st.fuel.getD 0
+    let g := runG .copy (kidsOf st.tbl) f winit st.rops
+    (st, s!"replayG={decide (g.h = st.h)} differs={decide (st.bad.h.trace ≠ st.h.trace || st.bad.h.s.queue ≠ st.h.s.queue)}")
   | ["hist"] =>
     let h := st.h
     -- the whole history once more through `runOps` (the object of the history theorems) with ONE
